@@ -608,6 +608,10 @@ func (e *Engine) instrMods(fn *ssa.Function, in ssa.Instruction, ms *modSet, r *
 		storeTarget(x.Addr, ms)
 	case *ssa.MapUpdate:
 		ms.keys["map:"+typeKey(x.Map.Type())+"|"] = true
+	case *ssa.UnOp:
+		if x.Op == token.ARROW {
+			ms.ghosts["recvs"] = true
+		}
 	case *ssa.Call, *ssa.Defer, *ssa.Go:
 		var c *ssa.CallCommon
 		switch y := x.(type) {
